@@ -67,6 +67,11 @@ const REFMIX_ITEMS: &[&str] = &[
     r##"<rect id="a" wh="#b"/>"##,
     r##"<rect id="b" wh="#a" xy="^|v"/>"##,
     r##"<text id="a" xy="#b|h" text="t"/>"##,
+    // computed ids and state which advances on every (re-)evaluation, next to references that never resolve
+    r##"<rect id="r{{random()}}{{random()}}{{random()}}" wh="1"/>"##,
+    r##"<var i="{{$i + 1}}"/><rect id="r$i" wh="1"/>"##,
+    r##"<rect xy="#nope" wh="1"/>"##,
+    r##"<g><rect id="g{{random()}}{{random()}}{{random()}}" wh="1"/><rect xy="#nope2|h" wh="1"/></g>"##,
 ];
 
 /// (element template with `@` for the value) carriers for the generic relspec-ish alphabet
@@ -258,7 +263,9 @@ fn space_case(space: &str, idx: usize, tier: Tier) -> Option<Case> {
         let (items, max) = if space == "refuse" { (REFUSE_ITEMS, tier.pick(5, 7)) } else { (REFMIX_ITEMS, tier.pick(3, 5)) };
         let s = strings_case(items.len(), idx, max)?;
         let body: String = s.iter().map(|t| items[*t]).collect();
-        return Some(Case { doc: format!("<svg>{body}</svg>").into_bytes(), cfg: plain, work: None, label: space.to_string(), expr_direct: false });
+        // (a counter variable defined before the root, for the items which advance it)
+        let pre = if space == "refmix" { "<var i=\"0\"/>" } else { "" };
+        return Some(Case { doc: format!("{pre}<svg>{body}</svg>").into_bytes(), cfg: plain, work: None, label: space.to_string(), expr_direct: false });
     }
     if let Some(c) = space.strip_prefix("rel") {
         let ci: usize = c.parse().ok()?;
